@@ -16,6 +16,7 @@ import tempfile
 
 from ..refmodels import c12_latex, c12_opb
 
+PYTHON_O_STRIDE = {"quick": 4, "thorough": 2}      # every n-th case is repeated in an interpreter started with -O
 RULE = ("formulas: seeded random CNF (clauses of width 0..6, repeated/opposite literals) and OPB "
         "(constraints entered through add_constraint with all five operators and negative "
         "coefficients, add_clause, cardinality_*, parity, majority; coefficients 1..9 and large, "
